@@ -308,8 +308,14 @@ class Server:
             for l in txt.split('\n'):
                 if l.startswith('RES '):
                     return json.loads(l[4:])
-            # no RES: crashed or hung
+            # no RES: crashed or hung.  EOF on the pipe can be seen before the dying process is reapable
+            # (the sanitizer is still writing its report): give it a moment before calling it a hang.
             rc = self.p.poll()
+            if rc is None and time.time() < end:
+                try:
+                    rc = self.p.wait(timeout=max(1.0, min(30.0, end - time.time())))
+                except subprocess.TimeoutExpired:
+                    rc = None
             if rc is None:
                 self.p.kill()
                 self.p.wait()
